@@ -1007,6 +1007,32 @@ def case_file_base(ctx, gtype, nseeds):
                 ctx.count("file_base_not_prepared")
                 continue
             shown = "<dir>/%s.%s" % (stem, fmt)
+            # the unmodified graph stored again in every format: the file name travels in the graph's name
+            from cnfgen.clitools.graph_args import formats as _formats
+            for sfmt in _formats[gtype]:
+                if sfmt == "dot" and not cg.has_dot_library():
+                    continue
+                out = os.path.join(tmp, "stored%d.%s" % (k, sfmt))
+                rnd = ("fair", 0, r.randrange(1 << 30))
+                st, val, obs = build(ctx, gtype, [path, "save", sfmt, out], rnd)
+                lab = "%s graph from file %s save %s <out>" % (gtype, shown, sfmt)
+                ctx.count("opt:save")
+                ctx.count("file_base_saves")
+                if st == "exc":
+                    ctx.violation("save:%s:%s" % (sfmt, "refuses" if isinstance(val, ValueError) else "raises:" + type(val).__name__),
+                                  "%s ended in %r" % (lab, val))
+                    continue
+                try:
+                    f = ref.read_saved(GRAPH_KIND[gtype], sfmt, out)
+                except ref.FileFormatError as e:
+                    ctx.violation("save:%s:file-not-in-format" % sfmt, "%s: the file is not a %s description of a %s graph: %s" % (lab, sfmt, gtype, e))
+                    continue
+                except OSError:
+                    ctx.violation("save:no-file-written", "%s returned a graph but wrote no file" % lab)
+                    continue
+                if f != want:
+                    ctx.violation("save:%s:file-differs-from-graph" % sfmt, "%s: file holds %s, the graph is %s" % (lab, show(f), show(want)))
+                ctx.judged(("file-base-save", gtype, stem, sfmt), nontrivial=True, sample={"spec": "%s save %s <out>" % (shown, sfmt)})
             for opts in [[]] + [[o] for o in optlist] + ([optlist] if len(optlist) > 1 else []):
                 for _ in range(nseeds):
                     rnd = ("fair", 0, r.randrange(1 << 30))
